@@ -4,8 +4,9 @@
    after each, so everything the server can do in response has happened before the next step. *)
 EXTENDS Naturals, Sequences, FiniteSets, TLC, TraceKit
 Fresh(stim) == [stim |-> stim, fired |-> FALSE, offeredAfterFire |-> {}, offered |-> {}, taken |-> {}, accepted |-> {}, handlerDone |-> {},
-                done |-> {}, dropped |-> {}, resolved |-> FALSE, epilogue |-> FALSE, final |-> FALSE, incomingEnded |-> FALSE]
-Keys == {"runs", "fired_runs", "signal_with_calls_in_flight", "late_offers", "streaming_calls", "client_drops", "resolved_runs", "calls_completed"}
+                done |-> {}, dropped |-> {}, resolved |-> FALSE, epilogue |-> FALSE, final |-> FALSE, incomingEnded |-> FALSE,
+                hopen |-> {}, hseen |-> 0, observed |-> FALSE]
+Keys == {"runs", "aged_runs", "incoming_ended_runs", "fired_runs", "signal_with_calls_in_flight", "late_offers", "streaming_calls", "client_drops", "resolved_runs", "calls_completed"}
 Init == InitK(Fresh([calls |-> <<>>]), Keys)
 CallRec(stim, k) == stim.calls[CHOOSE i \in 1..Len(stim.calls) : stim.calls[i].k = k]
 Expected(stim, k) == LET c == CallRec(stim, k) IN IF c.items = 0 THEN << <<k, 100>> >> ELSE [i \in 1..c.items |-> <<k, i - 1>>]
@@ -17,7 +18,8 @@ Step == /\ Live("step")
                           [] E.op = "drop" -> [s EXCEPT !.dropped = @ \cup {E.c}]
                           [] OTHER -> s)
         /\ Count((IF E.op = "fire" THEN {"fired_runs"} ELSE {}) \cup (IF E.op = "fire" /\ (s.accepted \ s.handlerDone) # {} THEN {"signal_with_calls_in_flight"} ELSE {})
-                 \cup (IF E.op = "offer" /\ (s.fired \/ s.incomingEnded) THEN {"late_offers"} ELSE {}) \cup (IF E.op = "drop" THEN {"client_drops"} ELSE {}))
+                 \cup (IF E.op = "offer" /\ (s.fired \/ s.incomingEnded) THEN {"late_offers"} ELSE {}) \cup (IF E.op = "drop" THEN {"client_drops"} ELSE {})
+                 \cup (IF E.op = "age" THEN {"aged_runs"} ELSE {}) \cup (IF E.op = "end_incoming" THEN {"incoming_ended_runs"} ELSE {}))
 Taken == /\ Live("taken") /\ UNCHANGED stats
          /\ JudgeK(<< <<"C13.NoConnectionAcceptedAfterSignal", E.c \notin s.offeredAfterFire>>, <<"HarnessOK", E.c \in s.offered>> >>, [s EXCEPT !.taken = @ \cup {E.c}])
 SrvReq == /\ Live("srv_req") /\ UNCHANGED stats
@@ -35,8 +37,19 @@ Resolved == /\ Live("resolved")
             /\ JudgeK(<< <<"C13.ResolvesOnlyOnSignal", s.fired \/ s.incomingEnded>>,
                          <<"C13.ResolvesOnlyAfterConnectionsDrained",
                                \A k \in s.accepted : k \in s.handlerDone \/ CallRec(s.stim, k).c \in s.dropped>>,
+                         <<"C13.ResolvesOnlyAfterAllConnectionsClosed", s.hopen = {}>>,
                          <<"C13.ServeResolvesCleanly", E.ok>> >>, [s EXCEPT !.resolved = TRUE])
             /\ Count({"resolved_runs"})
+\* hook events (feature verif-hooks): the server side of each connection, which no client can observe.
+\*   hopen = connection tasks started and not finished; the serve future may resolve only when it is empty.
+Hook == /\ Live("hook") /\ UNCHANGED stats
+        /\ CASE E.ev = "accepted" -> JudgeK(<< <<"C13.NoConnectionAcceptedAfterSignal", ~s.observed>>, <<"HarnessOK", E.n = s.hseen + 1>> >>,
+                                           [s EXCEPT !.hopen = @ \cup {E.n}, !.hseen = E.n])
+             [] E.ev = "conn_closed" -> JudgeK(<< <<"HarnessOK", E.n \in s.hopen>> >>, [s EXCEPT !.hopen = @ \ {E.n}])
+             [] E.ev \in {"signal_observed", "incoming_ended"} ->
+                    JudgeK(<< <<"C13.ResolvesOnlyOnSignal", IF E.ev = "signal_observed" THEN s.fired ELSE s.incomingEnded>> >>, [s EXCEPT !.observed = TRUE])
+             [] E.ev = "all_closed" -> JudgeK(<< <<"C13.ResolvesOnlyAfterAllConnectionsClosed", s.hopen = {}>> >>, s)
+             [] OTHER -> JudgeK(<<>>, s)
 Epilogue == /\ Live("epilogue") /\ UNCHANGED stats /\ JudgeK(<<>>, [s EXCEPT !.epilogue = TRUE])
 Final == /\ Live("final") /\ UNCHANGED stats
          /\ JudgeK(<< <<"C13.ResolvesOnceConnectionsClosed", (s.fired \/ s.incomingEnded) => (E.resolved /\ s.resolved)>>,
@@ -44,7 +57,7 @@ Final == /\ Live("final") /\ UNCHANGED stats
                       <<"C13.EveryAcceptedCallAnswered", \A k \in s.accepted : k \in s.done>> >>, [s EXCEPT !.final = TRUE])
 Ignore == /\ l <= Len(Rec) /\ ~dead /\ E.e \in {"client_connect_err"} /\ l' = l + 1 /\ UNCHANGED <<run, dead, bad, s, stats>>
 End == EndK(<< <<"RunComplete", E.outcome = "ok" => s.final>> >>)
-Known == {"reset", "step", "taken", "srv_req", "srv_done", "call_done", "call_aborted", "resolved", "epilogue", "final", "client_connect_err", "end"}
-Next == Reset \/ Step \/ Taken \/ SrvReq \/ SrvDone \/ CallDone \/ Aborted \/ Resolved \/ Epilogue \/ Final \/ Ignore \/ End \/ UnknownK(Known) \/ DeadSkipK
+Known == {"reset", "step", "taken", "srv_req", "srv_done", "call_done", "call_aborted", "resolved", "epilogue", "final", "client_connect_err", "hook", "end"}
+Next == Reset \/ Step \/ Taken \/ SrvReq \/ SrvDone \/ CallDone \/ Aborted \/ Resolved \/ Hook \/ Epilogue \/ Final \/ Ignore \/ End \/ UnknownK(Known) \/ DeadSkipK
 Spec == Init /\ [][Next]_kvars
 =============================================================================
